@@ -139,8 +139,18 @@ Theorem main_oracle_stop c :
   oracle c = true ->
   match c with
   | CSeq _ _ _ sr ce | CConc _ _ _ sr ce => sr = true /\ ce = true
+  | CStops calls => forall sr ce, In (sr, ce) calls -> sr = true /\ ce = true
   end.
 Proof.
-  destruct c as [m o r sr ce|m o r sr ce]; cbn [oracle]; unfold stop_ok;
-    intro H; apply andb_true_iff in H as [_ H]; apply andb_true_iff in H; exact H.
+  destruct c as [m o r sr ce|m o r sr ce|calls]; cbn [oracle]; unfold stop_ok; intro H.
+  - apply andb_true_iff in H as [_ H]; apply andb_true_iff in H; exact H.
+  - apply andb_true_iff in H as [_ H]; apply andb_true_iff in H; exact H.
+  - intros sr ce Hin. rewrite forallb_forall in H. specialize (H _ Hin).
+    cbn [fst snd] in H. apply andb_true_iff in H; exact H.
 Qed.
+
+Example main_oracle_stop_nonvacuous :
+  oracle (CStops [(true, true); (true, true); (true, true)]) = true /\
+  check_case (CStops [(true, true); (true, false)]) = 2 /\
+  check_case (CStops [(true, true); (false, false)]) = 2.
+Proof. vm_compute. repeat split; reflexivity. Qed.
